@@ -2,6 +2,7 @@
 // C16: letter case, spacing, comments, labels and number base do not change the code.
 #include "gen.hpp"
 #include "props.hpp"
+#include "cli.hpp"
 #include <cctype>
 
 using namespace gen;
@@ -285,6 +286,7 @@ static SpV check_program_noise(const std::vector<std::string> &lines, int combo,
 
 void prop_c16(hz::Ctx &ctx) {
   hz::Rng rng(ctx.seed ^ 0xc16);
+  const bool have_asmline = access(cli::asmline_path().c_str(), X_OK) == 0;
   std::vector<std::string> pool; // valid canonical lines for the program part
   corpus(ctx, rng, ctx.thorough() ? 200 : 40, [&](const Intent &it) {
     int variants = ctx.thorough() ? 8 : 6;
@@ -301,6 +303,13 @@ void prop_c16(hz::Ctx &ctx) {
       if (st.nrewrites >= 2) ctx.nontrivial(v.variant + "#" + std::to_string(combo));
       if (ctx.want_sample()) ctx.put_sample("\"" + v.canon + "\" vs \"" + v.variant + "\" [" + combo_name(combo) + "] -> " + (v.ok ? "same bytes" : v.symptom));
       if (!v.ok) { hz::Failure f = make_failure(c, v.symptom, v.detail); f.caseid = id; f.tags.push_back("group:line-spelling"); if (st.radix) f.tags.push_back("rewrite:radix"); ctx.fail(f); }
+      // a sample of the rewritten lines also goes through the asmline tool (stdin and FILE): the same bytes again
+      else if (have_asmline && (ss >> 9) % (ctx.thorough() ? 60 : 150) == 0 && it.cls != "branch") {
+        al::Result a = al::assemble(v.canon, combo); if (a.rc != 0) continue;
+        for (int from_stdin = 0; from_stdin < 2; from_stdin++) { int status = -1; std::string prog = std::string(((ss >> 20) & 1) ? "; header\n" : "") + v.variant + (((ss >> 21) & 1) ? "\n" : "\r\n"); auto got = cli::printed_bytes(prog, combo, from_stdin == 1, &status);
+          ctx.cls("group:through-asmline");
+          if (status != 0 || got != a.bytes) { hz::Failure f = make_failure(c, "asmline", std::string("asmline -p ") + (from_stdin ? "< stdin" : "FILE") + " on \"" + hz::jesc(prog).substr(0, 200) + "\": exit status " + std::to_string(status) + ", printed " + x86::hex(got.data(), got.size()) + " ; the library gives " + x86::hex(a.bytes.data(), a.bytes.size()) + " for the canonical spelling"); f.caseid = "SA|" + std::to_string(from_stdin) + "|" + id; f.tags.push_back("group:through-asmline"); ctx.fail(f); break; } }
+      }
     }
   });
   // programs
@@ -327,6 +336,10 @@ int replay_modes(const std::string &prop, const std::string &caseid) {
     printf("%s  [%s]\n", text(c.it).c_str(), combo_name(c.combo).c_str());
     if (v.ok) { printf("OK\n"); return 0; } printf("FAIL %s : %s\n", v.symptom.c_str(), v.detail.c_str()); return 1;
   }
+  if (kind == "SA") { auto b1 = rest.find('|'); int from_stdin = atoi(rest.substr(0, b1).c_str()); std::string r2 = rest.substr(b1 + 1); if (r2.compare(0, 2, "S|") != 0) return 2; r2 = r2.substr(2);
+    auto b2 = r2.find('|'); uint64_t ss = strtoull(r2.substr(0, b2).c_str(), nullptr, 10); LineCase c; if (!parse_case(r2.substr(b2 + 1), c)) return 2;
+    SpV v = check_spelling(c.it, c.combo, ss); al::Result a = al::assemble(v.canon, c.combo); int status = -1; std::string prog = std::string(((ss >> 20) & 1) ? "; header\n" : "") + v.variant + (((ss >> 21) & 1) ? "\n" : "\r\n"); auto got = cli::printed_bytes(prog, c.combo, from_stdin == 1, &status);
+    printf("variant: %s\nasmline: status %d, %s ; library: %s\n", v.variant.c_str(), status, x86::hex(got.data(), got.size()).c_str(), x86::hex(a.bytes.data(), a.bytes.size()).c_str()); bool ok = status == 0 && got == a.bytes; printf(ok ? "OK\n" : "FAIL\n"); return ok ? 0 : 1; }
   if (kind == "S") {
     auto b2 = rest.find('|'); uint64_t ss = strtoull(rest.substr(0, b2).c_str(), nullptr, 10); LineCase c; if (!parse_case(rest.substr(b2 + 1), c)) return 2;
     SpV v = check_spelling(c.it, c.combo, ss); printf("canonical: %s\nvariant:   %s\n", v.canon.c_str(), v.variant.c_str());
